@@ -112,6 +112,22 @@ macro_rules! wrappers {
             #[derive(Serialize, Deserialize, PartialEq, Debug)]
             struct $optname { #[serde(with = $optpath)] d: Option<$ty> }
         )*
+        /// every option module inside a flattened struct: the self-describing format is then read through
+        /// serde's buffered content, where `null` arrives as a unit
+        fn flattened_none() -> Result<(), String> {
+            $(
+                {
+                    #[derive(Serialize, Deserialize, PartialEq, Debug)]
+                    struct Outer { id: u8, #[serde(flatten)] inner: $optname }
+                    for v in [Outer { id: 7, inner: $optname { d: None } }] {
+                        let js = serde_json::to_string(&v).map_err(|e| format!("{}: flattened None does not serialize: {e}", $optpath))?;
+                        let back: Outer = serde_json::from_str(&js).map_err(|e| format!("{}: {js} (written by the module inside a flattened struct) does not deserialize: {e}", $optpath))?;
+                        if back != v { return Err(format!("{}: {js} came back as {back:?}", $optpath)); }
+                    }
+                }
+            )*
+            Ok(())
+        }
     };
 }
 wrappers! {
@@ -306,6 +322,7 @@ impl SubCheck for TsValue {
         one!(NMs, NMsO, n, 1, "naive ts_milliseconds");
         one!(NUs, NUsO, n, 2, "naive ts_microseconds");
         one!(NNs, NNsO, n, 3, "naive ts_nanoseconds");
+        call("flattened option modules", flattened_none)??;
         // leap-second reading of this second (when it is a :59): the option module writes what the plain
         // module writes, and the seconds modules write the timestamp of second 59 (what timestamp() reports)
         if m.secs % 60 == 59 && m.frac < 1_000_000_000 {
